@@ -60,8 +60,8 @@ PairIdx(n, mod) == {p \in (1 .. n) \X (1 .. n) : (p[1] * 31 + p[2] * 17 + Seed *
 \* every selected ordered pair on one reuse mode (rotating), or on all three when PairAllModes
 PairX(p) == p[1] * 5 + p[2] * 3 + Seed
 PairCase(p, mo) == CtxCase(<<MSeq["Ctx"][p[1]], MSeq["Ctx"][p[2]]>>, Modes[mo], Endings[((PairX(p) + mo) % 3) + 1], (PairX(p) \div 3) + mo)
-PairModes(p) == IF PairAllModes THEN 1 .. 3 ELSE {(PairX(p) % 3) + 1}
-CtxPairs == SetToSeq(UNION {{PairCase(p, mo) : mo \in PairModes(p)} : p \in PairIdx(N("Ctx"), PairMod)})
+CtxPairs == SetToSeq({PairCase(q[1], q[2]) :
+                      q \in {r \in PairIdx(N("Ctx"), PairMod) \X (1 .. 3) : PairAllModes \/ r[2] = (PairX(r[1]) % 3) + 1}})
 
 \* small integer hash (every intermediate < 2^31)
 H(x) == (x * 75 + 74) % 65537
